@@ -5,7 +5,8 @@ import Percival.Model.Humansize
 /-! `pmodel parsenum`: line protocol of `harness/h_parsenum.c` (driver code, not part of any theorem). -/
 namespace Percival.Driver.Parsenum
 open Percival.Model Percival.Driver
-open Percival.Model.Parsenum (IntTy CVal Answer Outcome)
+open Percival.Spec.Parsenum (IntTy CVal)
+open Percival.Model.Parsenum (Answer Outcome)
 open Percival.Model.Strtod (Fl)
 open Percival.Model.ParsenumFloat (FTy FOutcome)
 
